@@ -82,8 +82,21 @@ func checkC18(c *Ctx, r *Report) {
 		var flag *ssa.Phi
 		for _, b := range f.Blocks {
 			if i := ifOf(b); i != nil {
-				if p, ok := i.Cond.(*ssa.Phi); ok && p.Comment == "verified" {
-					flag = p
+				// the hash-match flag: a boolean phi with a constant-true and a constant-false operand that decides an If
+				if p, ok := i.Cond.(*ssa.Phi); ok {
+					hasT, hasF := false, false
+					for _, l := range phiLeaves(p) {
+						if bv, isC := constBool(l); isC {
+							if bv {
+								hasT = true
+							} else {
+								hasF = true
+							}
+						}
+					}
+					if hasT && hasF {
+						flag = p
+					}
 				}
 			}
 		}
@@ -461,17 +474,38 @@ func checkC18(c *Ctx, r *Report) {
 	upK := "(*" + wtPkg + ".transport).upgrade"
 	if f := r5.need(upK); f != nil {
 		// the verified cell
-		var cell *ssa.Alloc
-		allInstrs(f, func(in ssa.Instruction) {
-			if a, ok := in.(*ssa.Alloc); ok && a.Comment == "verified" {
-				cell = a
-			}
-		})
 		var cb *ssa.Function
 		for _, a := range f.AnonFuncs {
 			if len(callsIn(a, wtPkg+".decodeCertHashesFromProtobuf")) > 0 {
 				cb = a
 			}
+		}
+		// the verified cell: the boolean local captured by the callback into which the callback stores true
+		var cell *ssa.Alloc
+		var cellFV *ssa.FreeVar
+		if cb != nil {
+			allInstrs(f, func(in ssa.Instruction) {
+				mc, ok := in.(*ssa.MakeClosure)
+				if !ok || mc.Fn != ssa.Value(cb) {
+					return
+				}
+				for i, b := range mc.Bindings {
+					al, isAl := b.(*ssa.Alloc)
+					if !isAl {
+						continue
+					}
+					if bt, isB := al.Type().Underlying().(*types.Pointer).Elem().Underlying().(*types.Basic); !isB || bt.Kind() != types.Bool {
+						continue
+					}
+					for _, ref := range *cb.FreeVars[i].Referrers() {
+						if st, isSt := ref.(*ssa.Store); isSt && st.Addr == ssa.Value(cb.FreeVars[i]) {
+							if bv, isC := constBool(st.Val); isC && bv {
+								cell, cellFV = al, cb.FreeVars[i]
+							}
+						}
+					}
+				}
+			})
 		}
 		if cell == nil || cb == nil {
 			r5.Fail(upK+": verification callback", f.Pos(), "the `verified` flag or the early-data callback was not identified", "")
@@ -495,7 +529,7 @@ func checkC18(c *Ctx, r *Report) {
 			var fv *ssa.FreeVar
 			for i, b := range cb.FreeVars {
 				_ = i
-				if b.Name() == "verified" {
+				if b == cellFV {
 					fv = b
 				}
 			}
